@@ -13,6 +13,17 @@ NOTE_R = ("Mode R = IEEE specials over exact reals (no rounding/overflow/signed 
           "with instance axioms. Trusted: z3, the shim's model of NumPy element semantics, the oracles in /verif/spec and the harness. ")
 
 CHECKS = {
+    "C12": dict(
+        text="Bounded symbolic verification: the defuzzifier is a stub returning symbolic values of every result kind the registered "
+             "defuzzifiers produce (0-d array, NumPy scalar, 1-d batch), so all sequences of NaN/in-range/out-of-range values become "
+             "all doubles. The real OutputVariable.defuzzify / Engine.process / clear run on every split of a sequence of up to L "
+             "values into calls and batches; value and previous value after every call equal the cascade of the statement (a recursive "
+             "function), decided bit-exactly over IEEE binary64 and over extended reals; disabled variable untouched; a raising "
+             "defuzzifier leaves value, previous value and fuzzy output unchanged. The six scenarios of the test-suite cannot cover "
+             "every value of every element of every split.",
+        note="Mode F is exact here (the code only tests NaN, copies and clips). Trusted: z3, the shim's model of np.nditer/np.take/"
+             "np.clip/mask assignment (replays run the real NumPy), the cascade oracle in harness/c12.py. Sequence length bounded (L<=3 quick, 4 thorough).",
+        ref="DESIGN.md §2 C12"),
     "C03": dict(
         text="Bounded symbolic verification: Term.membership of each of the 20 shape terms and Constant is executed with symbolic x, "
              "parameters and height. Over exact reals with IEEE specials every obligation (equals the transcribed definition x height, "
